@@ -161,7 +161,7 @@ PROPS = {
                     "fewer than 2^32 Ok records in the mapping (representable domain of the u32 counters; under it unit u14 proves wf_cip for every class handed to the tail)",
                     "watto::StringTable::into_bytes / insert (string section contents, interning)",
                     "Pod::as_bytes byte images are abstract in the Verus proof; their layout is what Kani K1 proves"],
-        "not_decided": ["strict sortedness of the class section and (name, params) order of the by-params section (produced inside the unreachable collection loop)",
+        "not_decided": ["strict sortedness of the class section by resolved name and (name, params) order of the by-params section: the ingredients are there (u14: every collected class sits under its own obfuscated name as key and its name offset is that string's offset; u8: classes and members are emitted in BTreeMap order, ascending by std), but the statement `names resolved through the emitted string section are strictly increasing` is not written as an obligation (it needs the string-section model of watto)",
                         "string section validity (watto)",
                         "ProguardCache::test() is proved panic-free on every cache satisfying wf_for_selftest (tiling member ranges + readable strings); that parse(write(m)) satisfies it rests on the assumed Pod cast model (as_bytes / slice_from_prefix inverse) and on watto's string table"],
         "design_ref": "DESIGN.md 5/C09",
@@ -195,16 +195,15 @@ PROPS = {
         "title": "Torn, foreign or wrong-version cache files are rejected, never half-read",
         "units": [U4, U8],
         "kani": ["k9_parse_error_kinds_le96", "k2_format_constants"],
-        "technique": "Verus contract on ProguardCache::parse against the frozen v1 error-kind table / layout + prefix lemmas; Kani K9 (bounded in buffer length) for the error kinds routed through `?`",
-        "level_text": "Proof, for every buffer and address, that parse returns Err for too-short / misaligned buffers, the endianness / format / "
-                      "version error for the corresponding header, Ok exactly when the length covers the header-implied layout, the "
-                      "UnexpectedStringBytes{expected,found} error when only the string section is short, and that an accepted buffer's sections "
-                      "are exactly the header-declared sub-slices. Lemmas: every strict prefix of a file of exactly the implied length is rejected; "
-                      "acceptance depends only on (address, length, header). The kinds InvalidHeader/InvalidClasses/InvalidMembers are invisible "
-                      "to Verus through `?` (only `is Err` is proved) and are settled by Kani on all buffers of length <= 96 (bounded, labelled).",
+        "technique": "Verus contract on ProguardCache::parse against the complete frozen v1 verdict table (which error kind, or acceptance, for every address / length / header) and the section layout + prefix lemmas; the `?` operators are spelled out as their documented desugaring (R13) so that the error conversion is a call with a contract; Kani K9 re-checks the same table on short buffers as an independent (bounded) cross-check",
+        "level_text": "Proof, for every buffer and address, that parse returns exactly parse_verdict(address, length, header): InvalidHeader for too-short / misaligned buffers, the endianness / format / "
+                      "version error for the corresponding header, InvalidClasses / InvalidMembers when the class / member / by-params section (or its alignment padding) does not fit, "
+                      "UnexpectedStringBytes{expected, found} when only the string section is short (found = 0 when even its padding does not fit), Ok exactly when the length covers the header-implied layout; "
+                      "and that an accepted buffer's sections are exactly the header-declared sub-slices. Lemmas: the verdict is None iff `accepted`; every strict prefix of a file of exactly the implied length is rejected; "
+                      "acceptance depends only on (address, length, header). CacheError::kind returns the stored kind.",
         "assumed": ["watto Pod::ref_from_prefix / slice_from_prefix / align_to follow the address-aware model in contracts/watto_model.rs (they contain the unsafe casts)",
                     "that a writer-produced file has exactly the implied length is proved on the writer tail (unit u8), not here"],
-        "bounded": ["kani::k9_parse_error_kinds_le96: buffer length <= 96 bytes; NOT counted as proved for longer buffers"],
+        "bounded": ["kani::k9_parse_error_kinds_le96 (buffer length <= 96 bytes) is a redundant cross-check of the same verdict table on the compiled code; the claim does not rest on it any more"],
         "design_ref": "DESIGN.md 5/C11",
     },
     "C16": {
